@@ -70,7 +70,7 @@ func idxHistCase(env *core.Env, idx int, prop string) *core.CaseResult {
 		nT = 2
 	}
 	var tds []crashlab.TableDef
-	anyBtreeV, allNoV, anyHash := false, true, false
+	anyBtreeV, allNoV, anyHash, anyBtree := false, true, false, false
 	for t := 0; t < nT; t++ {
 		td := crashlab.TableDef{Name: []string{"x", "y"}[t], Via: "sql", Idx: []string{"skiplist", "skiplist", "skiplist"}}
 		if r.Intn(2) == 0 {
@@ -80,6 +80,7 @@ func idxHistCase(env *core.Env, idx int, prop string) *core.CaseResult {
 		anyBtreeV = anyBtreeV || td.Idx[2] == "btree"
 		allNoV = allNoV && td.Idx[2] == ""
 		anyHash = anyHash || td.Idx[1] == "hash"
+		anyBtree = anyBtree || td.Idx[0] == "btree" || td.Idx[1] == "btree" || td.Idx[2] == "btree"
 		tds = append(tds, td)
 	}
 	p.MaxPayload = 800
@@ -92,10 +93,25 @@ func idxHistCase(env *core.Env, idx int, prop string) *core.CaseResult {
 		p.RowSizes = []int{60, 300, 1200, 2500}
 	}
 	p.NoUpdate = anyHash
+	// every twelfth history: a table several times LARGER THAN THE POOL (60-120 rows of 1.4-2.2 KB in 32-48 frames) and transactions
+	// that update or delete every row: the pages a transaction changed are evicted and written while it is still open, its abort
+	// has to fetch them again (and what it restores has to survive the next eviction)
+	big := idx%12 == 7
+	if big {
+		tds = []crashlab.TableDef{{Name: "x", Via: "api", Idx: []string{[]string{"skiplist", "uniq"}[r.Intn(2)], []string{"", "skiplist"}[r.Intn(2)], ""}}}
+		nT = 1
+		p.MemKB = []int{128, 192}[r.Intn(2)]
+		p.MaxPayload = 3000
+		p.RowSizes = []int{1400, 1700, 2200}
+		p.BigTxnRows = 60 + r.Intn(61)
+		p.BigTxnDeletes = true
+		p.MaxOpen = 1
+		p.NoUpdate = false
+	}
 	p.Tables = tds
 	// every sixth history is driven by 3-6 client goroutines on disjoint rows (index maintenance, aborts and node splits
 	// of different transactions interleave inside the index containers); audited once, when all clients have finished
-	conc := idx%6 == 5
+	conc := idx%6 == 5 && !big
 	if conc {
 		p.Clients = 3 + r.Intn(4)
 		p.MemKB = []int{256, 512, 1024}[r.Intn(3)]
@@ -121,8 +137,12 @@ func idxHistCase(env *core.Env, idx int, prop string) *core.CaseResult {
 	if nT > 1 {
 		kindTags = append(kindTags, "two-tables")
 	}
-	if idx%6 == 5 {
+	if idx%6 == 5 && !big {
 		kindTags = append(kindTags, "concurrent-clients")
+	}
+	if big {
+		kindTags = append(kindTags, "table-larger-than-the-pool")
+		res.Add("histories_on_a_table_larger_than_the_pool", 1)
 	}
 	sort.Strings(kindTags)
 	prev := map[string]*idxSnap{}
@@ -338,10 +358,86 @@ func idxHistCase(env *core.Env, idx int, prop string) *core.CaseResult {
 		} else {
 			res.Add("restarts_audited", 1)
 			res.Add("restarts_"+strings.ReplaceAll(kind, " ", "_"), 1)
+			allOK := true
+			models := map[string][]rm.Row{}
 			for _, td := range tds {
-				audit(db, td, finalModel(h, td.Name), lastQ.MaxID+1000, "after "+kind+" and reopen, table "+td.Name, rtags, map[string]any{"seed": env.Seed, "idx": idx, "table": tds, "memKB": p.MemKB, "restart": kind, "statements": tailStr(h.StmtLog, 10)}, false, false)
+				models[td.Name] = finalModel(h, td.Name)
+				if _, ok := audit(db, td, models[td.Name], lastQ.MaxID+1000, "after "+kind+" and reopen, table "+td.Name, rtags, map[string]any{"seed": env.Seed, "idx": idx, "table": tds, "memKB": p.MemKB, "restart": kind, "statements": tailStr(h.StmtLog, 10)}, false, false); !ok {
+					allOK = false
+				}
 			}
-			guarded(func() { db.S.ShutdownForTescase() })
+			// a second restart of the restarted database (half of the file-backed histories): a little more committed work in the
+			// session after the first restart, then the other - or the same - kind of close, reopen, and the same audit. The indexes
+			// opened here are the ones the FIRST restart rebuilt or re-attached.
+			if allOK && idx%8 < 4 {
+				var stmts []string
+				nextID := lastQ.MaxID + 1
+				for _, td := range tds {
+					m := models[td.Name]
+					for n := 2 + r.Intn(5); n > 0; n-- {
+						row := rm.Row{rm.Int(nextID), rm.Int(int32(r.Intn(50))), rm.Str(crashlab.Payload(r, p.RowSizes, p.MaxPayload, fmt.Sprintf("s2r%d.", nextID)))}
+						nextID++
+						sql, _ := sqlx.InsertSQL(td.Name, crashlab.Cols, []rm.Row{row})
+						stmts = append(stmts, clipStr(sql, 80))
+						if res2 := db.Auto(sql); res2.Err == nil && !res2.Aborted {
+							m = append(m, row)
+						} else {
+							allOK = false
+						}
+					}
+					for n := r.Intn(4); n > 0 && len(m) > 0; n-- {
+						i := r.Intn(len(m))
+						sql := fmt.Sprintf("DELETE FROM %s WHERE id = %d;", td.Name, m[i][0].I)
+						stmts = append(stmts, sql)
+						if res2 := db.Auto(sql); res2.Err == nil && !res2.Aborted {
+							m = append(m[:i:i], m[i+1:]...)
+						} else {
+							allOK = false
+						}
+					}
+					models[td.Name] = m
+				}
+				kind2 := []string{"clean shutdown", "crash-like close"}[r.Intn(2)]
+				if kind == "crash-like close" && r.Intn(3) != 0 {
+					kind2 = "clean shutdown"
+				}
+				chain := kind + ", reopen, " + kind2
+				rtags2 := []string{"restart", "second-restart", strings.ReplaceAll(kind2, " ", "-") + "-after-" + strings.ReplaceAll(kind, " ", "-")}
+				if anyHash && (!p.CleanShutdown || kind2 == "crash-like close") {
+					rtags2 = append(rtags2, "hash-index-crash-restart")
+				}
+				if anyBtree && !p.CleanShutdown && kind2 == "clean shutdown" {
+					rtags2 = append(rtags2, "btree-clean-restart-after-crash-restart")
+				}
+				if !allOK {
+					res.Add("second_restarts_skipped_after_a_refused_statement", 1)
+				} else {
+					if kind2 == "clean shutdown" {
+						guarded(func() { db.S.Shutdown() })
+					} else {
+						guarded(func() { db.S.ShutdownForTescase() })
+					}
+					d2 := map[string]any{"seed": env.Seed, "idx": idx, "table": tds, "memKB": p.MemKB, "restart": chain, "statements_between_the_restarts": stmts}
+					db2, failure2, hung2 := crashlab.OpenWithTimeout(path, p.MemKB)
+					if hung2 {
+						res.RestartChild = true
+						res.Violate("restart-hang", append(rtags2, kindTags...), d2, "reopen after %s: %s", chain, failure2)
+					} else if failure2 != "" {
+						res.Violate("restart-panic", append(rtags2, kindTags...), d2, "reopen after %s: %s", chain, failure2)
+					} else {
+						res.Add("second_restarts_audited", 1)
+						res.Add("second_restarts_"+strings.ReplaceAll(kind2, " ", "_")+"_after_"+strings.ReplaceAll(kind, " ", "_"), 1)
+						for _, td := range tds {
+							audit(db2, td, models[td.Name], nextID+1000, "after "+chain+" and reopen, table "+td.Name, rtags2, d2, false, false)
+						}
+						guarded(func() { db2.S.ShutdownForTescase() })
+					}
+					db = nil
+				}
+			}
+			if db != nil {
+				guarded(func() { db.S.ShutdownForTescase() })
+			}
 		}
 	}
 	sqlx.RemoveFiles(path)
